@@ -47,6 +47,24 @@ fn main() {
     let args = vcommon::parse_args();
     let code = match args.id.as_str() {
         "C30" => c30::main(&args),
+        "C10G" => {
+            // GUID part of C10 (the rest runs in the zv crate); writes a part file for merging
+            if let Some(p) = &args.replay {
+                let j = vcommon::load_replay(p);
+                let s = j["replay"]["string"].as_str().unwrap_or("");
+                println!("zbus accepts {s:?} as a GUID: {}", c10guid::replay(s));
+                0
+            } else {
+                let report = vcommon::Report::new("C10-guid-part", args.tier, args.seed, "exploration");
+                c10guid::run(&report);
+                let path = vcommon::verif_root().join(".run").join("C10-guid-part.json");
+                let _ = std::fs::create_dir_all(path.parent().unwrap());
+                if std::fs::write(&path, report.export_part().to_string()).is_err() {
+                    vcommon::machinery_failure("cannot write the C10 GUID part");
+                }
+                0
+            }
+        }
         "C11" => c11::main(&args),
         "C12" => c12::main(&args),
         "C13" => c13::main(&args),
